@@ -145,6 +145,48 @@ impl H {
             ok.push(if good { '1' } else { '0' });
             vals.push(val);
         }
+        // `matched_items(range)`: every spelling of a few ranges must list exactly the items of `matches()[range]`
+        // (a mismatch, or a panic for an in-range bound, marks every match as unreadable)
+        {
+            use std::ops::Bound::*;
+            let n = s.matches().len() as u32;
+            let want: Vec<u32> = s.matches().iter().map(|m| m.idx).collect();
+            let (ranges_ok, _) = quiet(&mut || {
+                let idxs = |lo: std::ops::Bound<u32>, hi: std::ops::Bound<u32>| -> Vec<u32> {
+                    s.matched_items((lo, hi)).map(|it| {
+                        // identify the item by its position in the stream: compare data with get_item(idx)
+                        it.data.0
+                    }).collect()
+                };
+                let val = |k: usize| s.get_item(want[k]).map(|i| i.data.0);
+                let mut ok = true;
+                let mut check = |lo: std::ops::Bound<u32>, hi: std::ops::Bound<u32>, a: usize, b: usize| {
+                    let got = idxs(lo, hi);
+                    let exp: Vec<u32> = (a..b).filter_map(val).collect();
+                    if got != exp || got.len() != b - a {
+                        ok = false;
+                    }
+                };
+                check(Unbounded, Unbounded, 0, n as usize);
+                if n >= 1 {
+                    check(Included(0), Excluded(n), 0, n as usize);
+                    check(Included(0), Included(n - 1), 0, n as usize);
+                    check(Included(n - 1), Unbounded, n as usize - 1, n as usize);
+                    check(Unbounded, Excluded(1), 0, 1);
+                }
+                if n >= 3 {
+                    check(Included(1), Excluded(n - 1), 1, n as usize - 1);
+                    check(Excluded(0), Included(n - 2), 1, n as usize - 1);
+                }
+                (ok, String::new())
+            });
+            if !ranges_ok {
+                ok = ok.chars().map(|_| '0').collect();
+                if ok.is_empty() && !s.matches().is_empty() {
+                    ok = "0".repeat(s.matches().len());
+                }
+            }
+        }
         let pd = format!("{:?}", (0..self.cols).map(|c| s.pattern().column_pattern(c).atoms.clone()).collect::<Vec<_>>());
         let pid = self.pat_debug.iter().position(|d| *d == pd).map(|i| i as i64).unwrap_or(-1);
         // what the snapshot's own item handle reaches by index, matched or not (`get_item` reads the snapshot's stream)
